@@ -191,4 +191,15 @@ CHECKS = {
         assumptions=["byte comparison with the harness's own little-endian encoder"],
         technique="round-trip property-based testing",
     ),
+    "C28": dict(
+        test="TestC28", level="exploration", shards=16,
+        tiers=dict(quick=dict(checks=150, timeout=600), thorough=dict(checks=15000, timeout=3000)),
+        rule="rapid lists of 1-5 write commands of the shape the write path produces (fixed/variable, key paths with "
+             "components up to 1300 bytes, 1-300 columns with names up to 32 bytes over all wire types, payloads 0 B-1 MB, "
+             "arbitrary offset/index) through the real WALFileType.FlushCommandsToWAL (serializeTG), captured by a "
+             "recording ReplicationSender, decoded by ParseTGData; oracle: target file, record type, varRecLen, offset, "
+             "index, payload and column schema identical; non-trivial = >=2 commands or >=128 columns or a name >=20 bytes",
+        assumptions=["column names longer than 32 bytes are outside the domain: such buckets cannot be created (C15)"],
+        technique="round-trip property-based testing",
+    ),
 }
